@@ -401,7 +401,10 @@ def sectionItems : Py → List (Text × Py)
 def nameTarget (views : List (Text × CellView)) (ranges : List (Text × Py)) (d : Py) : NameTarget :=
   match d with
   | .alias [s, k] =>
-      if s = kCells then (match lookup k views with | some v => .cell v.address | none => .other)
+      if s = kCells then
+        (match lookup k views with
+         | some v => if v.cls = some clsCell then .cell v.address else .other
+         | none => .other)
       else if s = kRanges then
         (match (lookup k ranges).bind rangeView with | some (a, mx) => .range a mx | none => .other)
       else .other
